@@ -158,6 +158,14 @@ CHECKS["C17"] = dict(
     note="Variants are written by a serializer from the parsed base document (one infoset by construction). Documents with element children inside tokens are not used for white-space rewrites (white space is content there). Attribute values containing 'xmlns:' or 'class=' are not generated. One known finding (text that looks like markup is edited) is listed.",
 )
 
+CHECKS["C19"] = dict(
+    category="model_checking",
+    technique="TLA+ model of the intent lexer and grammar (Intent.tla: LexState's token order over character classes, the grammar of infer_intent.rs's comments under both readings of an empty argument list) model-checked by TLC on every class string up to a bound; exported strings concretised as intent values (ASCII and non-ASCII representatives, resolvable and dangling references, nestings up to depth 1 000) on five host elements; get_spoken_text under IntentErrorRecovery = IgnoreIntent and = Error and of the host without the attribute recorded from the library and judged by TLC against the five clauses (Trace_Intent.tla)",
+    text="Design: over all 177 156 class strings of length <= 5 (quick) / 1.9 million of length <= 6 (thorough): clearly illegal values (unbalanced or stray parentheses, empty argument, text after ')', a character no token may hold, ':' or '$' without a name, no head) are illegal under both readings, clearly legal simple values name($r,..) are legal under both, the readings differ only where '()' occurs. Implementation: about 3 000 (quick) / 80 000 (thorough) (value, host) events: IgnoreIntent speech is always Ok; if Error mode says Err the IgnoreIntent speech equals the speech without the attribute, if it says Ok both modes agree; clearly illegal values and dangling references give Err in Error mode; clearly legal simple values with an unknown head are accepted and the speech has the head's words and each referenced argument; afterwards the expression still has the attribute, no data-intent-property, and the same braille.",
+    design_ref="DESIGN.md section 5 C19",
+    note="Neither legality nor illegality is asserted for values with an empty argument list (the comment grammar and the code differ there). A head that a rule file knows as a concept is spoken by its own phrase, so 'mentions' is not demanded for it.",
+)
+
 NOT_YET = {}
 
 
